@@ -477,3 +477,240 @@ def param_index_of_type(fn, ty_pat):
 
 def span_of_block_term(fn, b):
     return fn.body.blocks[b]["term"]["span"].replace("!x", "")
+
+
+# ---------------------------------------------------------------------------------------
+# control conditions (decision tables)
+
+_STD_VARIANTS = {"Option": ["None", "Some"], "Result": ["Ok", "Err"], "ControlFlow": ["Continue", "Break"],
+                 "Ordering": {"255": "Less", "0": "Equal", "1": "Greater", "18446744073709551615": "Less", "-1": "Less"}}
+
+
+def strip_ty(ty):
+    ty = ty.strip()
+    while ty.startswith("&"):
+        ty = ty[1:].strip()
+        if ty.startswith("mut "):
+            ty = ty[4:]
+        if ty.startswith("'"):
+            ty = ty.split(" ", 1)[1] if " " in ty else ty
+    return ty
+
+
+def base_ty(ty):
+    ty = strip_ty(ty)
+    depth = 0
+    for i, c in enumerate(ty):
+        if c == "<":
+            return ty[:i]
+    return ty
+
+
+def variant_name(P, ty, val):
+    b = base_ty(ty)
+    short = b.rsplit("::", 1)[-1]
+    if short in _STD_VARIANTS and (b.startswith("std::") or b.startswith("core::")):
+        tab = _STD_VARIANTS[short]
+        if isinstance(tab, dict):
+            return tab.get(str(val), str(val))
+        return tab[int(val)] if int(val) < len(tab) else str(val)
+    names = enum_variants(P, b)
+    if names and int(val) < len(names):
+        return names[int(val)]
+    return str(val)
+
+
+def all_variants(P, ty):
+    b = base_ty(ty)
+    short = b.rsplit("::", 1)[-1]
+    if short in _STD_VARIANTS and (b.startswith("std::") or b.startswith("core::")):
+        tab = _STD_VARIANTS[short]
+        return sorted(set(tab.values())) if isinstance(tab, dict) else list(tab)
+    return enum_variants(P, b)
+
+
+def discr_place_ty(fn, s):
+    """Type of the place whose discriminant is switched on at block s (or None)."""
+    blk = fn.body.blocks[s]
+    t = blk["term"]
+    d = t["discr"]
+    if d["k"] not in ("copy", "move"):
+        return None
+    for st in reversed(blk["stmts"]):
+        if st["k"] == "assign" and st["place"]["l"] == d["place"]["l"] and not st["place"]["p"]:
+            if st["rv"]["k"] == "discr":
+                return st["rv"]["place"]["ty"]
+            return None
+    return None
+
+
+def control_conditions(P, fn, b):
+    """Switches that control block b: [{'sw': s, 'cond': switch_cond, 'allowed': [labels], 'ty': discr type}].
+    A label is a variant name (discriminant switches), True/False (bool switches) or the raw value."""
+    body = fn.body
+    res = []
+    for s, blk in enumerate(body.blocks):
+        if blk["cleanup"] or blk["term"]["k"] != "switch" or s == b and False:
+            continue
+        if s not in body.reachable_from(0):
+            continue
+        t = blk["term"]
+        targets = [(v, tb) for v, tb in t["arms"]] + [("otherwise", t["otherwise"])]
+        tset = sorted({tb for _, tb in targets})
+        if len(tset) < 2:
+            continue
+        allowed_targets = []
+        for tb in tset:
+            cut = tuple((s, o) for o in tset if o != tb)
+            if b in body.reachable_from(0, cut_edges=cut):
+                allowed_targets.append(tb)
+        # ignore targets that are plain `unreachable`
+        live = [tb for tb in tset if body.blocks[tb]["term"]["k"] != "unreachable"]
+        if set(allowed_targets) >= set(live):
+            continue
+        cond = switch_cond(P, fn, s)
+        ty = discr_place_ty(fn, s)
+        labels = []
+        be = bool_edges(body, s)
+        for v, tb in targets:
+            if tb not in allowed_targets:
+                continue
+            if be is not None:
+                neg = (cond[3] if cond[0] == "cmp" else (cond[2] if len(cond) > 2 else False))
+                truth = (v == "otherwise")
+                labels.append((not truth) if neg else truth)
+            elif ty is not None and v != "otherwise":
+                labels.append(variant_name(P, ty, v))
+            elif ty is not None and v == "otherwise":
+                listed = {variant_name(P, ty, x) for x, _ in t["arms"]}
+                allv = all_variants(P, ty) or []
+                rest = [x for x in allv if x not in listed]
+                labels.extend(rest if rest else ["otherwise"])
+            else:
+                labels.append(v)
+        res.append({"sw": s, "cond": cond, "allowed": labels, "ty": ty})
+    return res
+
+
+# ---------------------------------------------------------------------------------------
+# error propagation and loops
+
+def propagated(P, fn, callbb):
+    """If the Result produced by the call ending block `callbb` is inspected by `?` or a match:
+    returns (switch_bb, continue_edge, break_edge); else None."""
+    body = fn.body
+    cv = P.val_call(fn, body, callbb)
+    for s, blk in enumerate(body.blocks):
+        if blk["cleanup"] or blk["term"]["k"] != "switch":
+            continue
+        c = switch_cond(P, fn, s)
+        if c is None or c[0] != "discr":
+            continue
+        v = c[1]
+        via_branch = False
+        if v[0] == "call" and is_try_branch(v[3]) and v[4] and v[4][0] == cv:
+            via_branch = True
+        elif v != cv:
+            continue
+        ty = discr_place_ty(fn, s)
+        t = blk["term"]
+        cont = brk = None
+        targets = [(x, tb) for x, tb in t["arms"]] + [("otherwise", t["otherwise"])]
+        for x, tb in targets:
+            if body.blocks[tb]["term"]["k"] == "unreachable":
+                continue
+            name = variant_name(P, ty, x) if (ty and x != "otherwise") else None
+            if name in ("Continue", "Ok"):
+                cont = (s, tb)
+            elif name in ("Break", "Err"):
+                brk = (s, tb)
+            elif x == "otherwise":
+                # the remaining variant
+                if cont is None and brk is not None:
+                    cont = (s, tb)
+                elif brk is None and cont is not None:
+                    brk = (s, tb)
+        if cont and brk:
+            return (s, cont, brk)
+    return None
+
+
+_ADAPTORS = {"enumerate", "rev", "take", "skip", "map", "filter", "step_by", "zip", "chain", "take_while", "skip_while",
+             "filter_map", "flat_map", "peekable", "cloned", "copied", "inspect", "fuse", "flatten", "scan", "map_while"}
+_ITER_SRC = {"iter", "iter_mut", "into_iter", "range", "keys", "values", "drain", "chars", "bytes", "split", "lines", "range_raw", "keys_raw", "prefix_range"}
+
+
+def iter_chain(v, depth=0):
+    """Decompose an iterator value: returns (adaptors outermost-first as (name, call value), source kind, source value)."""
+    ads = []
+    while depth < 40:
+        depth += 1
+        k = v[0]
+        if k == "phi":
+            alts = [x for x in v[1] if x[0] not in ("cycle", "mut", "uninit")]
+            if len(alts) != 1:
+                # the loop-carried iterator: phi(init, mut(phi...)): take the non-mut alternative
+                alts = [x for x in v[1] if x[0] not in ("cycle", "uninit")]
+                nm = [x for x in alts if x[0] != "mut"]
+                if len(nm) == 1:
+                    v = nm[0]
+                    continue
+                return ads, "unknown", v
+            v = alts[0]
+            continue
+        if k == "mut":
+            v = v[1]
+            continue
+        if k == "call" and isinstance(v[3], str):
+            name = last_seg(v[3])
+            if name == "into_iter" and v[4]:
+                inner = v[4][0]
+                # into_iter of an iterator is the identity; of a collection it is the source
+                if inner[0] == "call" and isinstance(inner[3], str) and (last_seg(inner[3]) in _ADAPTORS or last_seg(inner[3]) in _ITER_SRC):
+                    v = inner
+                    continue
+                return ads, "into_iter", inner
+            if name in _ADAPTORS and v[4]:
+                ads.append((name, v))
+                v = v[4][0]
+                continue
+            if name in _ITER_SRC and v[4]:
+                return ads, name, (v[4][0] if name in ("iter", "iter_mut") else v)
+        return ads, "unknown", v
+    return ads, "unknown", v
+
+
+def loops(P, fn):
+    """Loops driven by Iterator::next: [{'next_bb', 'some_edge', 'none_edge', 'iter': value, 'item_root': root string}]"""
+    body = fn.body
+    res = []
+    for b, p, fr, t in P.calls(fn):
+        if p is None or last_seg(p) != "next" or "Iterator" not in p:
+            continue
+        cv = P.val_call(fn, body, b)
+        # the switch on the Option returned
+        for s, blk in enumerate(body.blocks):
+            if blk["cleanup"] or blk["term"]["k"] != "switch":
+                continue
+            c = switch_cond(P, fn, s)
+            if c and c[0] == "discr" and c[1] == cv:
+                ty = discr_place_ty(fn, s)
+                some = none = None
+                for x, tb in blk["term"]["arms"]:
+                    nm = variant_name(P, ty, x)
+                    if nm == "Some":
+                        some = (s, tb)
+                    elif nm == "None":
+                        none = (s, tb)
+                if some is None or none is None:
+                    o = blk["term"]["otherwise"]
+                    if body.blocks[o]["term"]["k"] != "unreachable":
+                        if some is None:
+                            some = (s, o)
+                        else:
+                            none = (s, o)
+                is_loop = some is not None and b in body.reachable_from(some[1])
+                res.append({"next_bb": b, "switch": s, "some_edge": some, "none_edge": none, "iter": cv[4][0], "call": cv,
+                            "is_loop": is_loop,
+                            "item_root": "C:%s@%s:bb%d" % (generic_path(p), fn.path, b)})
+    return res
